@@ -16,7 +16,10 @@ computed from the type structure and the compile-time limits (INVENTORY_LIMIT,
 REF_REMOTE_LIMIT, ADDRESS_LIMIT, filter sizes, ping/pong limits, u8-prefixed
 strings), is within wire::Size::MAX, and ping/pong paddings are built only within
 their limits.  Not decided: equality decode(encode(m)) == m as a value fact, and
-uniqueness of encodings over arbitrary decodable bytes beyond the INJ rule."""
+uniqueness of encodings over arbitrary decodable bytes beyond the INJ rules.
+(INJ, second half) between a read and the value returned, decoded data passes only through
+plumbing, conversion traits, constructors and a reviewed list of dependency constructors:
+no unreviewed (possibly normalising) transformation."""
 import re
 
 from .. import cfg, rules, codec, flow
